@@ -37,7 +37,11 @@ def _rewrite_func(match):
 
 
 def osc_rematch_pattern(pattern, address):
-    pattern = re.sub(_rewrite_pattern, _rewrite_func, pattern)
+    try:
+        pattern = re.compile(
+            re.sub(_rewrite_pattern, _rewrite_func, pattern))
+    except re.error:
+        return False  # A malformed address pattern matches nothing.
     return re.fullmatch(pattern, address) is not None
 
 
